@@ -268,6 +268,35 @@ theorem C11_solver_hypotheses_consistent :
 example : ∀ x ∈ runHist cEnv .Solver (World.init false false) [[]] cHist, JudgeOrGiveUp cEnv x.1 x.2.1 x.2.2 :=
   C11_solver_refines_or_gives_up cHyps cHist cHist_ok
 
+/-! ### why `EvalComplete` is a hypothesis
+
+The oracle of the model returns, with a `sat` answer, the key set of the Z3 model AS `_generic_model` READS IT.  `_batch_eval`
+evaluates the expressions with `model_completion=True` first, which adds the constants the evaluator visits to the model
+object — so in the real code the model handed to `_model_hook` mentions a variable of the expression and gives it the value
+reported.  An oracle that is exact but leaves the variable out (below: the first answer of a run mentions no constant) makes
+the MODEL flag the expression eval-exhausted with one value missing from the cache; the next `eval` is answered from the
+cache and is incomplete.  On the real code the same history answers all 8 values twice (the cache holds 8 models). -/
+
+def tCon : Con := { id := 2, vars := [0], sem := fun _ => true }
+def tOracle (q : Query) (_k : Nat) : Answer :=
+  match (List.range 8).find? (fun v => q.holds (fun _ => v)) with
+  | some v => .sat [v] (if q.asserted.length + q.assumptions.length ≤ 1 then [] else [0])
+  | none => .unsat []
+def tEnv : Env :=
+  { dflt := fun _ => 0, oracle := tOracle, build := fun _ => default, falseCon := cFalse,
+    cheapFalse := fun _ _ _ => false, truth := fun _ _ _ => false, simp := fun cs _ => cs, pick := fun all n _ => all.take n }
+
+example : (runHist tEnv .Solver (World.init false false) [[]]
+      [(0, .add [tCon]), (0, .eval cExp 20 []), (0, .eval cExp 20 [])]).map (·.2.2) =
+    [.cons [2], .vals [0, 1, 2, 3, 4, 5, 6, 7], .vals [1, 2, 3, 4, 5, 6, 7]] := by decide +kernel
+
+example : ¬ Judge [tCon] (.eval cExp 20 []) (.vals [1, 2, 3, 4, 5, 6, 7]) := by
+  intro h
+  have h0 : Feasible ([tCon] ++ []) cExp 0 := ⟨fun _ => 0, by simp [Models, tCon], by simp [cExp]⟩
+  simp only [Judge, cExp] at h
+  have := h.2.2.2 0 h0
+  simp at this
+
 /-! ### the hypotheses are jointly satisfiable -/
 
 /-- an oracle that answers `sat` whenever some finitely described partial model forces the query, `unsat` whenever
